@@ -224,12 +224,10 @@ def run_axi(case, rng, full):
         kw = {}
         if case["kind"] == "slow" and si == faulty:
             L = case["lat"]
-            kw["accept_lat"] = {"aw": L, "w": L, "ar": L} if not full else None
+            kw["accept_lat"] = {"aw": L, "w": L, "ar": L}
         elif si == faulty:
             kw["mute_from"], kw["mute_kind"] = case["mute_from"], mk
         if full:
-            kw.pop("accept_lat", None)
-
             def tagger(slv, a, n, k, si=si):
                 return ((si + 1) << 24) | ((n & 0xff) << 16) | (k << 12) | (a["addr"] & 0xfff)
             sags.append(bench.add(AXISlave(s, rng, "s%d" % si, lat=(0, 1), tagger=tagger, **kw)))
